@@ -667,5 +667,7 @@ def get_hardware_num_denom(
         )
 
     denom_diff = 4 - instr.angle_denom.value
-    angle_num = instr.angle_num.value * (2**denom_diff)
+    # A rotation by angle_num * pi / 16 has period 32 in angle_num: leave out
+    # whole turns so that the rescaled numerator still fits in an immediate.
+    angle_num = (instr.angle_num.value * (2**denom_diff)) % 32
     return (Immediate(angle_num), Immediate(4))
